@@ -107,6 +107,7 @@ class Check:
         return
 
     exhaustive = False
+    eval_stat = None  # name of a stats counter to report as `evaluations` (default: cases executed)
 
 
 class Agg:
@@ -153,6 +154,11 @@ def _work(arg):
             c = chk.build(d)
             if c is not None:
                 cases.append(c)
+        ids = set()
+        for c in cases:
+            if c.id in ids:
+                raise Inconclusive("duplicate case id %s (generator bug)" % c.id)
+            ids.add(c.id)
         wd = os.path.join(runner.WORK, chk.id)
         wrapper, env = chk.wrapper_env() if hasattr(chk, "wrapper_env") else (None, None)
         events, deaths = runner.run_cases(_BINARY, cases, wd, "s%d" % shard_no, timeout=chk.shard_timeout, wrapper=wrapper, env=env)
@@ -313,8 +319,12 @@ def run_check(chk, replay=None):
 
 
 def _write_evidence(chk, agg, notes, wall, inconclusive=(), verdict="held", fresh=(), known=()):
+    evaluations = agg.evaluations
+    if chk.eval_stat and agg.stats.get(chk.eval_stat):
+        evaluations = agg.stats[chk.eval_stat]
     cov = {
-        "evaluations": agg.evaluations,
+        "evaluations": evaluations,
+        "cases_executed": agg.evaluations,
         "distinct_nontrivial": len(agg.keys),
         "rule": chk.rule,
         "samples": agg.samples[:3] or ["(none)"],
